@@ -176,6 +176,9 @@ def crafted_instances():
     out.append(('nanosecond_steps', {'elems': [heavy, big], 'load': ld(c0=F(1, 1000)), 'ctrls': [], 'stops': [], 'ops': [
         {'op': 'set_initial', 'pos': F(0), 'spd': F(0)}, {'op': 'new_solver', 'sid': 1},
         {'op': 'run', 'sid': 1, 'dt': F(1, 10**9), 'T': F(12, 10**9), 'dt_unit': 'ms', 'T_unit': 'sec'}]}))
+    # a second layout declared from shared elements after assembly (the pinion then `drives` another gear)
+    out.append(('fork_after_build', {'elems': gearpair, 'load': ld(c0=F(1, 1000)), 'ctrls': [], 'stops': [], 'fork_after_build': [2],
+                                     'ops': sched(5, more=[run2])}))
     # a friction sweep before assembly: the same worm pair declared first self-locking then free, and the other way round
     out.append(('sweep_sl_then_free', {'elems': [motor, worm, wheel_free, out_gear], 'load': ld(c0=5), 'ctrls': [], 'stops': [], 'pre_worm': {2: F(2, 5)}, 'ops': sched(6)}))
     out.append(('sweep_free_then_sl', {'elems': sl, 'load': ld(c0=5), 'ctrls': [], 'stops': [], 'pre_worm': {2: F(1, 50)}, 'ops': sched(6)}))
